@@ -19,6 +19,9 @@
 //!                                      ECONNREFUSED (reported on the send after the one that bounced).  After the emits a
 //!                                      listener is bound to the port and the sink is flushed twice.
 //!                                      Observation: R|F:<two flush results>|D:<datagrams received after that>|S|A
+//!        XL <u|cap|d> <emits> <len> <long|nul>   Unix sink whose destination path cannot be turned into a socket address
+//!                                      (120 bytes long, or containing a NUL): every send is refused before it reaches the OS.
+//!                                      Observation: R|S|A as for XW (no datagrams)
 //!   ops = comma list of E<hex> (emit) | F (flush) | l (listener down: Unix only) | L (listener up again)
 //!         | s (read MetricSink::stats(); the figures go to |T:<stats>;..  - not part of the model's observation)
 //! observation:  R:<per op: k<n> | e | - >|D:<datagrams received, hex, in order>|S:<bytes_sent>.<packets_sent>.<bytes_dropped>.<packets_dropped>
@@ -31,6 +34,7 @@ use cadence::{
     UnixMetricSink,
 };
 use std::net::{SocketAddr, UdpSocket};
+use std::os::unix::ffi::OsStrExt;
 use std::os::unix::net::UnixDatagram;
 use std::panic::RefUnwindSafe;
 use std::path::PathBuf;
@@ -514,6 +518,47 @@ pub fn run_case(line: &str) -> String {
                 stats_str(&st),
                 att
             )
+        }
+        "XL" => {
+            let n: usize = t[2].parse().unwrap();
+            let len: usize = t[3].parse().unwrap();
+            let p: PathBuf = if t[4] == "nul" {
+                PathBuf::from(std::ffi::OsStr::from_bytes(b"/tmp/cadence\0verif.sock"))
+            } else {
+                PathBuf::from(format!("/tmp/{}", "p".repeat(120)))
+            };
+            let send = UnixDatagram::unbound().expect("unbound");
+            let attempts = Arc::new(AtomicU64::new(0));
+            let a2 = attempts.clone();
+            cadence::verif::install(Arc::new(move |site| {
+                if site == "sink.write" {
+                    a2.fetch_add(1, Ordering::SeqCst);
+                }
+            }));
+            let sink: Box<dyn MetricSink + Send + Sync + RefUnwindSafe> = if t[1] == "u" {
+                Box::new(UnixMetricSink::from(&p, send))
+            } else if t[1] == "d" {
+                Box::new(BufferedUnixMetricSink::from(&p, send))
+            } else {
+                Box::new(BufferedUnixMetricSink::with_capacity(&p, send, t[1].parse().unwrap()))
+            };
+            let mut res = vec![];
+            for i in 0..n {
+                let m = format!("l{}.{}", i, "x".repeat(len.saturating_sub(3 + i.to_string().len())));
+                res.push(match sink.emit(&m) {
+                    Ok(k) => format!("k{}", k),
+                    Err(e) => format!("e{}", kind_no(e.kind())),
+                });
+            }
+            res.push(match sink.flush() {
+                Ok(()) => "k0".to_string(),
+                Err(e) => format!("e{}", kind_no(e.kind())),
+            });
+            let st = sink.stats();
+            let att = if t[1] == "u" { n as u64 } else { attempts.load(Ordering::SeqCst) };
+            std::mem::forget(sink);
+            cadence::verif::uninstall();
+            format!("R:{}|S:{}|A:{}", res.join(","), stats_str(&st), att)
         }
         "UR" => {
             let n: usize = t[2].parse().unwrap();
